@@ -58,20 +58,28 @@ def shard(args):
     news = [make_new(ns) for ns in NEW_SPECS]
     news_cells = [C.cells(n) for n in news]
     news_snap = [None if isinstance(n, str) else C.snapshot(n) for n in news]
-    for i, spec in enumerate(C.layouts(k, L)):
+    universe = [(s_, None) for s_ in C.layouts(k, L)] + [(s_, how) for s_ in C.layouts(2, 2) for how in C.REPEAT_HOWS]
+    for i, (spec0, how) in enumerate(universe):
         if i % NSHARDS != idx:
             continue
-        f = C.build(spec)
+        if how is None:
+            spec = spec0
+            f = C.build(spec)
+            want_cells = C.spec_cells(spec)
+        else:
+            # values whose runs are the same objects repeated (f*2, f+f, join)
+            f, want_cells = C.build_repeated(spec0, how)
+            spec = tuple(spec0) + (("<" + how + ">", ()),)
         fcells = C.cells(f)
-        if fcells != C.spec_cells(spec):
+        if fcells != want_cells:
             acc.failure("harness:universe_build", {"f": C.show_spec(spec)}, "built value differs from its spec")
             continue
         snap = C.snapshot(f)
         n = len(fcells)
         divides = set()
         pos = 0
-        for t, _ in spec[:-1]:
-            pos += len(t)
+        for ch in f.chunks[:-1]:
+            pos += len(ch.s)
             divides.add(pos)
         for ni, new in enumerate(news):
             for start in range(0, n + 3):
